@@ -580,7 +580,11 @@ func (e *engine) explore(entry *ssa.Function, args []value, qlog func(int) *stri
 				}
 			}
 			if r.unknownSeen {
-				inconcl["solver answered unknown on a feasibility query (branch kept)"]++
+				// sound: the branch was kept, and a violation needs a model of
+				// the whole path condition; recorded, not a reason to distrust the run
+				e.mu.Lock()
+				e.allNotes["solver answered unknown on a feasibility query: the branch was kept (obligations on it are still decided with the full path condition)"] = true
+				e.mu.Unlock()
 			}
 			for _, ev := range r.events {
 				inconcl[ev]++
